@@ -40,9 +40,30 @@ def same(a, b):
     return a is b
 
 
+def _bag(xs):
+    out = {}
+    for x in xs:
+        k = x if isinstance(x, (str, int, float, bool, type(None))) else id(x)
+        out[k] = out.get(k, 0) + 1
+    return out
+
+
 def seq_eq(a, b):
-    a, b = list(a), list(b)
-    return len(a) == len(b) and all(x is y for x, y in zip(a, b))
+    """the two listings have the same elements with the same multiplicities (natively: the properties do not fix the order of
+    a listing; in proofs the clause is the stronger statement that the sequences are equal)"""
+    return _bag(list(a)) == _bag(list(b))
+
+
+class BagList(list):
+    """a list that compares equal to any list with the same elements and multiplicities (elements by name-equality of the
+    library for objects would hide identity: objects are compared by identity)"""
+    def __eq__(self, other):
+        return isinstance(other, (list, tuple)) and _bag(self) == _bag(other)
+
+    def __ne__(self, other):
+        return not self.__eq__(other)
+
+    __hash__ = None
 
 
 class SkipClause(Exception):
